@@ -71,7 +71,25 @@ let gen ~(tier : string) ~(seed : int) ~(emit : Sexp.t -> unit) : unit =
       let u = if Rng.bool r then u else t in
       if convb (nat_of_int 60) g t u <> None then
         emit (L [ A "unifypair"; ctx_sexp bs; sexp_of_term ~depth:d t; sexp_of_term ~depth:d u ])
-    end
+    end;
+    (* definitionally equal but syntactically different: a term against its normal form / weak-head normal form *)
+    if Rng.chance r 1 3 then begin
+      (match nf (nat_of_int 60) g t with
+       | Some u when u <> t && convb (nat_of_int 60) g t u <> None ->
+         emit (L [ A "unifypair"; ctx_sexp bs; sexp_of_term ~depth:d t; sexp_of_term ~depth:d u ])
+       | _ -> ());
+      (match whnf (nat_of_int 60) g t with
+       | Some u when u <> t && convb (nat_of_int 60) g t u <> None ->
+         emit (L [ A "unifypair"; ctx_sexp bs; sexp_of_term ~depth:d t; sexp_of_term ~depth:d u ])
+       | _ -> ())
+    end;
+    (* two names: every pair of variables of a small context (aliases, chains of definitions) *)
+    if d >= 2 && d <= 6 && Rng.chance r 1 4 then
+      for i = 0 to d - 1 do for j = i + 1 to d - 1 do
+          let a = TVar (nat_of_int i) and b = TVar (nat_of_int j) in
+          if convb (nat_of_int 60) g a b <> None then
+            emit (L [ A "unifypair"; ctx_sexp bs; sexp_of_term ~depth:d a; sexp_of_term ~depth:d b ])
+        done done
   done
 
 let layer_has_hole = function
